@@ -28,67 +28,100 @@ def compile_atoms(atoms, s, end_anchor=False):
     N = s.N
     real = [(k, a) for k, a in enumerate(atoms) if a[0] in ("lit", "star", "plus")]
     T = len(real)
+    F = z3.BoolVal(False)
+    inlen = [z3.IntVal(j) <= s.L for j in range(N + 1)]
+    runs = {}
+
+    def run_table(kind):
+        # run[i][j]: every byte of buffer[i:j] is in the class (built incrementally: O(N^2) nodes per class)
+        if kind not in runs:
+            p = cls_pred(kind)
+            ok = [p(s.c[k]) for k in range(N)]
+            tab = [[F] * (N + 1) for _ in range(N + 1)]
+            for i in range(N + 1):
+                tab[i][i] = z3.BoolVal(True)
+                for j in range(i + 1, N + 1):
+                    tab[i][j] = z3.And(tab[i][j - 1], ok[j - 1]) if j - 1 > i else ok[i]
+            runs[kind] = tab
+        return runs[kind]
     M = []
     for _, a in real:
-        tab = [[z3.BoolVal(False)] * (N + 1) for _ in range(N + 1)]
-        for i in range(N + 1):
-            for j in range(i, N + 1):
-                if a[0] == "lit":
-                    if j - i == len(a[1]):
-                        tab[i][j] = z3.And(*[s.c[i + k] == ord(a[1][k]) for k in range(len(a[1]))], j <= s.L) if a[1] else z3.BoolVal(True)
-                else:
-                    if a[0] == "plus" and j == i: continue
-                    p = cls_pred(a[1])
-                    tab[i][j] = z3.And(*[p(s.c[k]) for k in range(i, j)], j <= s.L)
+        tab = [[F] * (N + 1) for _ in range(N + 1)]
+        if a[0] == "lit":
+            n = len(a[1])
+            for i in range(N + 1 - n):
+                j = i + n
+                tab[i][j] = z3.And(*[s.c[i + k] == ord(a[1][k]) for k in range(n)], inlen[j]) if n else z3.BoolVal(True)
+        else:
+            rt = run_table(a[1])
+            for i in range(N + 1):
+                for j in range(i, N + 1):
+                    if a[0] == "plus" and j == i:
+                        continue
+                    tab[i][j] = z3.And(rt[i][j], inlen[j]) if j > i else inlen[j]
         M.append(tab)
     R = [None] * (T + 1)
     if end_anchor:
-        R[T] = [z3.Or(s.L == i, z3.And(s.L == i + 1, s.c[i] == 10) if i < N else z3.BoolVal(False)) for i in range(N + 1)]
+        R[T] = [z3.Or(s.L == i, z3.And(s.L == i + 1, s.c[i] == 10) if i < N else F) for i in range(N + 1)]
     else:
-        R[T] = [z3.IntVal(i) <= s.L for i in range(N + 1)]
-    for t in range(T - 1, -1, -1):
-        R[t] = [z3.Or(*[z3.And(M[t][i][j], R[t + 1][j]) for j in range(i, N + 1)]) for i in range(N + 1)]
+        R[T] = list(inlen)
     return real, M, R
+
 
 def py_match(solver, atoms, s, tag, search=True, end_anchor=False):
     """adds constraints defining the match Python would produce; returns (exists, positions P[t] as Int exprs, group spans)"""
     N = s.N
     real, M, R = compile_atoms(atoms, s, end_anchor)
     T = len(real)
-    # name the R tables to keep formula size down
-    Rn = []
-    for t in range(T + 1):
+    F = z3.BoolVal(False)
+    # named completion tables R[t][i] (items t.. can still match from i), defined bottom-up
+    Rn = [None] * (T + 1)
+    for t in range(T, -1, -1):
         row = []
         for i in range(N + 1):
             b = z3.Bool(f"R{tag}_{t}_{i}")
-            solver.add(b == R[t][i])
+            if t == T:
+                solver.add(b == R[T][i])
+            else:
+                opts = [z3.And(M[t][i][j], Rn[t + 1][j]) for j in range(i, N + 1) if not z3.is_false(M[t][i][j])]
+                solver.add(b == (z3.Or(*opts) if opts else F))
             row.append(b)
-        Rn.append(row)
+        Rn[t] = row
     exists = z3.Or(*Rn[0]) if search else Rn[0][0]
     pos = [z3.Int(f"p{tag}_{t}") for t in range(T + 1)]
     cons = []
     if search:
-        cons.append(z3.Or(*[z3.And(pos[0] == i, Rn[0][i], *[z3.Not(Rn[0][k]) for k in range(i)]) for i in range(N + 1)]))
+        notbefore = z3.BoolVal(True)
+        opts = []
+        for i in range(N + 1):
+            opts.append(z3.And(pos[0] == i, Rn[0][i], notbefore))
+            notbefore = z3.And(notbefore, z3.Not(Rn[0][i]))
+        cons.append(z3.Or(*opts))
     else:
         cons.append(pos[0] == 0)
     for t in range(T):
         opts = []
         for i in range(N + 1):
+            # longer[j]: some k > j with item t matching [i:k] and the rest matching from k  (suffix-or: O(N) per i)
+            longer = [F] * (N + 2)
+            for j in range(N - 1, i - 1, -1):
+                k = j + 1
+                term = z3.And(M[t][i][k], Rn[t + 1][k]) if not z3.is_false(M[t][i][k]) else F
+                longer[j] = z3.Or(longer[j + 1], term) if not z3.is_false(term) else longer[j + 1]
             for j in range(i, N + 1):
-                if z3.is_false(M[t][i][j]): continue
-                better = [z3.And(M[t][i][k], Rn[t + 1][k]) for k in range(j + 1, N + 1) if not z3.is_false(M[t][i][k])]
-                opts.append(z3.And(pos[t] == i, pos[t + 1] == j, M[t][i][j], Rn[t + 1][j], *[z3.Not(b) for b in better]))
-        cons.append(z3.Or(*opts))
+                if z3.is_false(M[t][i][j]):
+                    continue
+                opts.append(z3.And(pos[t] == i, pos[t + 1] == j, M[t][i][j], Rn[t + 1][j], z3.Not(longer[j])))
+        cons.append(z3.Or(*opts) if opts else F)
     solver.add(z3.Implies(exists, z3.And(*cons)))
     # groups
     spans = {}
-    ridx = {k: n for n, (k, _) in enumerate(real)}
     for k, a in enumerate(atoms):
         if a[0] in ("open", "close"):
-            # position index = number of real atoms before k
             n = sum(1 for kk, _ in real if kk < k)
             spans.setdefault(a[1], [None, None])[0 if a[0] == "open" else 1] = pos[n]
     return exists, pos, spans
+
 
 def char_at(pieces, k, N):
     """pieces: list of (base SymS or python str, start Int expr, end Int expr); char k of the concatenation (k python int)"""
